@@ -37,7 +37,7 @@ META = {
                  "contention logs validated by TLC",
     "level_text": "TLC checks all histories of new/fresh/pickle/unpickle/copy/drop/try-acquire/release on 3 (quick) / 4 (thorough) "
                   "objects, 2 explicit tokens, 1 / 2 pickles, <= 3 / 4 Lock() objects (complete graph, any length), and exports every "
-                  "behaviour of length <= 6 (quick) / 7 (thorough, sampled) of the 3-object, 1-token, 1-pickle instance "
+                  "behaviour of length <= 5 (quick) / 7 (thorough, sampled) of the 3-object, 1-token, 1-pickle instance "
                   "(thorough, sampled) for replay on dask.utils.SerializableLock with the projected state compared after every "
                   "step. Longer random histories (6 objects, 3 tokens, 3 pickles, ops spread over worker threads in lock step) "
                   "and enter/exit logs of 2-8 free-running threads contending on pickled copies are decided by TLC.",
@@ -352,10 +352,10 @@ def run(ctx):
     from concurrent.futures import ThreadPoolExecutor
     # design check on the complete graph (no history variable) + export of all bounded behaviours
     big = model(ctx, ctx.pick(3, 4), 2, ctx.pick(1, 2), 0, ctx.pick(1, 2), ctx.pick(3, 4), False)
-    exp_consts = (3, 1, 1, ctx.pick(6, 7), 1, 3)
+    exp_consts = (3, 1, 1, ctx.pick(5, 7), 1, 3)
     exp = model(ctx, *exp_consts, True)
     side = []
-    recs = record_all(ctx, ctx.pick(600, 6000), ctx.pick(40, 300), lambda *a: side.append(a))
+    recs = record_all(ctx, ctx.pick(1500, 6000), ctx.pick(40, 300), lambda *a: side.append(a))
     rejected = []
     with ThreadPoolExecutor(3) as ex:
         f1 = ex.submit(lambda: ctx.tlc(big[0], big[1], label="design: complete graph", timeout=2400))
